@@ -167,8 +167,22 @@ impl Schedules {
         if !base.is_ok() {
             classes.push("baseline-err".into());
         }
+        if ambiguous_names(&c.prog) {
+            classes.push("ambiguous-short-name".into());
+        }
         Ok((builds, max_rounds, classes))
     }
+}
+
+/// some short name is defined (as item or extern type) in more than one module
+fn ambiguous_names(p: &Prog) -> bool {
+    let mut seen = std::collections::BTreeMap::<&str, usize>::new();
+    for m in &p.mods {
+        for n in m.items.iter().map(|i| i.name()).chain(m.ext_types.iter().map(|e| e.name.as_str())) {
+            *seen.entry(n).or_default() += 1;
+        }
+    }
+    seen.values().any(|&k| k > 1)
 }
 
 /// Turn an accepted program into a (probably) rejected one: determinism must hold for failures too.
@@ -218,9 +232,16 @@ impl Prop for Schedules {
         "C09/schedules".into()
     }
     fn rule(&self) -> String {
-        format!("multi-module programs from the rich generator (by-value chains, bases with vftables, cross-module imports, enum/extern-typed fields, impl/vftable signatures over user types). Every program is built: 4x with hash order, under Sorted/Reverse/6 set-dependent seeded schedules, under every priority permutation of its user items when it has <= {} of them ({} sampled permutations otherwise), and under every permutation of add_module order (<= 4 modules; 24 sampled beyond). Oracle: all runs agree on Ok/Err and on the bytes of every output file. Non-trivial: >= 3 user items and >= 2 resolution rounds under some schedule. References to generated <T>Vftable names from signatures are not generated (known finding F06, demonstrated by its own replay)", self.exhaustive_upto, self.sampled)
+        format!("multi-module programs from the rich generator, one in five from the C11 generator (one short name defined in several modules, competing by-name and whole-module imports, an extern value of that name) (by-value chains, bases with vftables, cross-module imports, enum/extern-typed fields, impl/vftable signatures over user types). Every program is built: 4x with hash order, under Sorted/Reverse/6 set-dependent seeded schedules, under every priority permutation of its user items when it has <= {} of them ({} sampled permutations otherwise), and under every permutation of add_module order (<= 4 modules; 24 sampled beyond). Oracle: all runs agree on Ok/Err and on the bytes of every output file. Non-trivial: >= 3 user items and >= 2 resolution rounds under some schedule. References to generated <T>Vftable names from signatures are not generated (known finding F06, demonstrated by its own replay)", self.exhaustive_upto, self.sampled)
     }
     fn gen(&self, t: &mut Tape) -> Case {
+        // one case in five: a small module set in which one short name is defined in several
+        // modules and reached through competing imports (the C11 generator), so that a binding
+        // made while the registry is only partly filled shows under a module-order permutation
+        if t.chance(1, 5) {
+            let c = super::c11::gen_case(t);
+            return Case { prog: c.prog, w: c.w, seed: t.u64() };
+        }
         let cfg = hazard_cfg(t);
         let w = cfg.w;
         let (mut prog, _, _) = gen_prog(t, cfg);
@@ -274,6 +295,10 @@ impl Prop for FreshProcess {
         format!("same generator; the input files are written to disk and `pyxis::build` is run in {} fresh processes (fresh hash seeds, real file discovery); oracle: same status and byte-identical files across processes and equal to the in-process result. Non-trivial: >= 3 user items", self.runs)
     }
     fn gen(&self, t: &mut Tape) -> Case {
+        if t.chance(1, 5) {
+            let c = super::c11::gen_case(t);
+            return Case { prog: c.prog, w: c.w, seed: t.u64() };
+        }
         let cfg = hazard_cfg(t);
         let w = cfg.w;
         let (mut prog, _, _) = gen_prog(t, cfg);
